@@ -118,84 +118,4 @@ theorem cmereIdx_is_source (starts ends : List Int) (hlen : ends.length = starts
 theorem arms_meet (idx : Int) : src_by_arm_p_hi idx = idx ∧ src_by_arm_q_lo idx = idx :=
   ⟨(frag_values 0).2.2.2.2.2.2.2.1 idx, (frag_values 0).2.2.2.2.2.2.2.2 idx⟩
 
-/-! ### the margin -/
-
-/-- the translator's rendering of Python's `round` never exceeds `k` below `k + 1/2` -/
-theorem pyRound_le (r : Rat) (k : Int) (h : r < (k : Rat) + 1 / 2) :
-    (let r_ : Rat := r; let f_ : Int := r_.floor;
-      if 2 * (r_ - (f_ : Rat)) < 1 then (f_ : Rat) else if 2 * (r_ - (f_ : Rat)) > 1 then ((f_ + 1 : Int) : Rat)
-      else if f_ % 2 = 0 then (f_ : Rat) else ((f_ + 1 : Int) : Rat)) ≤ (k : Rat) := by
-  simp only []
-  have hf : ((r.floor : Int) : Rat) ≤ r := Rat.floor_le r
-  have hfk : r.floor ≤ k := by
-    have : ((r.floor : Int) : Rat) < ((k + 1 : Int) : Rat) := by push_cast; linarith
-    have := Int.cast_lt.mp this
-    omega
-  rcases Int.lt_or_eq_of_le hfk with hlt | heq
-  · have h1 : ((r.floor : Int) : Rat) ≤ (k : Rat) := by exact_mod_cast hfk
-    have h2 : ((r.floor + 1 : Int) : Rat) ≤ (k : Rat) := by exact_mod_cast hlt
-    split_ifs <;> assumption
-  · have h1 : 2 * (r - ((r.floor : Int) : Rat)) < 1 := by rw [heq]; linarith
-    rw [if_pos h1, heq]
-
-/-- for every chromosome of at most 504 bins (the property quantifies over 1..400) the margin is the default
-    `min_arm_bins` = 50, as in the model (`roundTenth n ≤ 50`) -/
-theorem margin_small (n : Nat) (h : n ≤ 504) :
-    src_by_arm_margin src_by_arm_default_min_arm_bins (n : Rat) = 50 ∧ max 50 (roundTenth n) = 50 := by
-  constructor
-  · unfold src_by_arm_margin src_by_arm_default_min_arm_bins
-    apply max_eq_left
-    have hn : (n : Rat) ≤ 504 := by exact_mod_cast h
-    have := pyRound_le (((3602879701896397 : Rat) / 36028797018963968) * (n : Rat)) 50 (by
-      have : ((3602879701896397 : Rat) / 36028797018963968) * (n : Rat) ≤
-          ((3602879701896397 : Rat) / 36028797018963968) * 504 :=
-        mul_le_mul_of_nonneg_left hn (by norm_num)
-      have h2 : ((3602879701896397 : Rat) / 36028797018963968) * 504 < ((50 : Int) : Rat) + 1 / 2 := by norm_num
-      linarith)
-    simpa using this
-  · unfold roundTenth
-    simp only []
-    split_ifs <;> omega
-
-/-- for every chromosome whose bin count does not end in 5 (and below 10^15) the source's margin -- `round` applied to
-    the EXACT product of the double 0.1 and the bin count -- is the model's `max min_arm_bins (roundTenth n)`.
-    (For counts ending in 5 the exact product lies just above the half and Python's float product lands on it; the
-    model rounds n/10 half-to-even, as the float computation does: compared on the real code by the harness.) -/
-theorem margin_general (k n : Nat) (h5 : n % 10 ≠ 5) (hn : n < 10 ^ 15) :
-    src_by_arm_margin (k : Rat) (n : Rat) = ((max k (roundTenth n) : Nat) : Rat) := by
-  unfold src_by_arm_margin
-  simp only []
-  set c : Rat := (3602879701896397 : Rat) / 36028797018963968 with hc
-  obtain ⟨q, d, hd, rfl⟩ : ∃ q d : Nat, d < 10 ∧ n = 10 * q + d := ⟨n / 10, n % 10, by omega, by omega⟩
-  have hd5 : d ≠ 5 := by omega
-  have hnR : ((10 * q + d : Nat) : Rat) < 10 ^ 15 := by exact_mod_cast hn
-  have hn0 : (0 : Rat) ≤ ((10 * q + d : Nat) : Rat) := by positivity
-  have hr : c * ((10 * q + d : Nat) : Rat) = (q : Rat) + (d : Rat) / 10 + ((10 * q + d : Nat) : Rat) / 180143985094819840 := by
-    rw [hc]; push_cast; ring
-  have heps0 : (0 : Rat) ≤ ((10 * q + d : Nat) : Rat) / 180143985094819840 := by positivity
-  have heps1 : ((10 * q + d : Nat) : Rat) / 180143985094819840 < 1 / 100 := by
-    rw [div_lt_iff₀ (by norm_num)]; linarith
-  have hdR : (d : Rat) ≤ 9 := by exact_mod_cast (by omega : d ≤ 9)
-  have hd0 : (0 : Rat) ≤ (d : Rat) := by positivity
-  have hfl : (c * ((10 * q + d : Nat) : Rat)).floor = (q : Int) := by
-    have : ⌊c * ((10 * q + d : Nat) : Rat)⌋ = (q : Int) := Int.floor_eq_iff.mpr ⟨by rw [hr]; push_cast; linarith, by rw [hr]; push_cast; linarith⟩
-    exact this
-  rw [hfl]
-  have hrt : roundTenth (10 * q + d) = if d < 5 then q else q + 1 := by
-    unfold roundTenth
-    simp only []
-    have e1 : (10 * q + d) / 10 = q := by omega
-    have e2 : (10 * q + d) % 10 = d := by omega
-    rw [e1, e2]
-    split_ifs <;> omega
-  rw [hrt]
-  by_cases hlt : d < 5
-  · have hdR' : (d : Rat) ≤ 4 := by exact_mod_cast (by omega : d ≤ 4)
-    have h1 : 2 * (c * ((10 * q + d : Nat) : Rat) - ((q : Int) : Rat)) < 1 := by rw [hr]; push_cast; linarith
-    rw [if_pos h1, if_pos hlt]; push_cast; rfl
-  · have hdR' : (6 : Rat) ≤ (d : Rat) := by exact_mod_cast (by omega : 6 ≤ d)
-    have h1 : ¬ 2 * (c * ((10 * q + d : Nat) : Rat) - ((q : Int) : Rat)) < 1 := by rw [hr]; push_cast; linarith
-    have h2 : 2 * (c * ((10 * q + d : Nat) : Rat) - ((q : Int) : Rat)) > 1 := by rw [hr]; push_cast; linarith
-    rw [if_neg h1, if_pos h2, if_neg hlt]; push_cast; rfl
-
 end CnvVerif.Src
